@@ -2,10 +2,13 @@ package scen
 
 import (
 	"context"
+	"crypto/tls"
+	"crypto/x509"
 	"fmt"
 	"strings"
 	"time"
 
+	plugin "github.com/hashicorp/go-plugin"
 	grpctest "github.com/hashicorp/go-plugin/test/grpc"
 	"google.golang.org/grpc"
 
@@ -31,6 +34,18 @@ func routeInstances(tier string) []explore.Params {
 		}
 		return out
 	}
+	if tier == "variants" || tier == "variants-thorough" { // TLS on both brokers; a runner that translates addresses
+		for _, v := range []string{"tls", "xlate"} {
+			for _, a := range one {
+				if tier == "variants" && strings.HasSuffix(a, "2000") {
+					continue
+				}
+				out = append(out, explore.Params{"pat": a, "var": v})
+			}
+			out = append(out, explore.Params{"pat": "hA0,pD0", "var": v}, explore.Params{"pat": "pA4900,hD0", "var": v})
+		}
+		return out
+	}
 	for _, a := range one {
 		for _, b := range one {
 			if tier != "pairs-all" && (strings.HasSuffix(a, "2000") || strings.HasSuffix(b, "2000")) {
@@ -50,7 +65,15 @@ func init() {
 		Name: "grpc_route",
 		Body: func(x *vs.Exec, p explore.Params) {
 			x.Hold()
-			pr, err := newGRPCPair(x, grpcPairOpts{})
+			po := grpcPairOpts{}
+			switch p["var"] {
+			case "tls":
+				tc := symTLS()
+				po.hostTLS, po.pluginTLS = tc, tc.Clone()
+			case "xlate":
+				po.xlate = true
+			}
+			pr, err := newGRPCPair(x, po)
 			if err != nil {
 				x.Fail("ENGINE", "pair setup: %v", err)
 				return
@@ -137,4 +160,21 @@ func init() {
 		},
 		Instances: routeInstances,
 	})
+}
+
+// symTLS is a TLS configuration usable in both directions (server certificate + roots). The
+// certificate is generated when called, i.e. on the bubble's virtual clock (a certificate made
+// at process start, on the real clock, is "not yet valid" in the year 2000).
+func symTLS() *tls.Config {
+	cp, kp, err := plugin.VGenerateCert()
+	if err != nil {
+		panic(err)
+	}
+	cert, err := tls.X509KeyPair(cp, kp)
+	if err != nil {
+		panic(err)
+	}
+	pool := x509.NewCertPool()
+	pool.AppendCertsFromPEM(cp)
+	return &tls.Config{Certificates: []tls.Certificate{cert}, RootCAs: pool, ServerName: "localhost", MinVersion: tls.VersionTLS12}
 }
